@@ -3,7 +3,8 @@
     fan-in bookkeeping.
 
       for each path argument i:  result.paths[i] := LintedDir(arg i);  expand arg i;
-                                 expanded_paths ++= expansion;  expanded_path_to_linted_dir[p] := i
+                                 for each p of the expansion not seen before (by identity, [kept] below):
+                                   expanded_paths.push(p);  expanded_path_to_linted_dir[p] := i
       expanded_paths.par_iter().filter(!ignorer).map(render + lint).for_each(|f| result.paths[dir[f.path]].add(f))
 
     Files are identified by numbers ([N]); [lint] is the per-file function (a Section variable:
@@ -31,6 +32,36 @@ Fixpoint push_at {A} (i : nat) (x : A) (bs : list (list A)) : list (list A) :=
   | b :: bs', S i' => b :: push_at i' x bs'
   end.
 
+(** The expansion loop of [lint_paths] since cbbae86 ("processes a file once when path arguments
+    repeat or overlap"):
+
+      seen_files := {};  for each argument i, for each path p of its expansion (in order):
+        identity := canonicalize(p) (or p itself);  if !seen_files.insert(identity) { continue }
+        expanded_paths.push(p);  expanded_path_to_linted_dir.insert(p, i)
+
+    A path is a *spelling* (a number); [ident] maps a spelling to the identity of the file it
+    reaches (the canonical path: [./d/a.sql], [d//a.sql], [d/../d/a.sql], [/abs/d/a.sql] and a
+    symbolic link to it are five spellings of one file). [keep_arg seen e] = (the paths of one
+    expansion that are taken, the set afterwards); [kept] = what every argument contributes to
+    [expanded_paths] / [expanded_path_to_linted_dir]. The rest of [lint_paths] (below) runs on [kept]. *)
+Fixpoint keep_arg (ident : N -> N) (seen : list N) (e : list N) : list N * list N :=
+  match e with
+  | [] => ([], seen)
+  | p :: e' =>
+      if memN (ident p) seen then keep_arg ident seen e'
+      else let '(k, s) := keep_arg ident (ident p :: seen) e' in (p :: k, s)
+  end.
+Fixpoint keep_all (ident : N -> N) (seen : list N) (exps : list (list N)) : list (list N) :=
+  match exps with
+  | [] => []
+  | e :: es => let '(k, s) := keep_arg ident seen e in k :: keep_all ident s es
+  end.
+Definition kept (ident : N -> N) (exps : list (list N)) : list (list N) := keep_all ident [] exps.
+
+(** The same loop keyed by the spelling instead of the identity (what a map keyed by the path
+    string decides): kept for the refutation lemma of the seeded round. *)
+Definition kept_by_spelling (exps : list (list N)) : list (list N) := keep_all (fun p => p) [] exps.
+
 Section Sched.
   Variable res : Type.
   Variable lint : N -> res.
@@ -54,4 +85,9 @@ Section Sched.
   (** the result after the files completed in the order [order] *)
   Definition collect (exps : list (list N)) (order : list N) : option (list (list (N * res))) :=
     fold_left (add_one exps) order (Some (repeat [] (length exps))).
+
+  (** [lint_paths] as a whole: expansion with de-duplication by identity, then the fan-in *)
+  Definition lint_paths (ident : N -> N) (exps : list (list N)) (order : list N)
+    : option (list (list (N * res))) :=
+    collect (kept ident exps) order.
 End Sched.
